@@ -124,7 +124,8 @@ def check_tiling(grid, gspec, mesh, deco, res, case):
             res.violation(f"axis {axis}: outer bounds of the tiling differ from the base grid", case)
             ok = False
         for a, b in zip(subs, subs[1:]):
-            if a.axes_bounds[axis][1] != b.axes_bounds[axis][0]:
+            # Cartesian sub-grids store (position, size) and re-add them: neighbouring bounds agree to round-off
+            if abs(a.axes_bounds[axis][1] - b.axes_bounds[axis][0]) > tol:
                 res.violation(f"axis {axis}: gap/overlap between neighbouring sub-grids ({a.axes_bounds[axis][1]!r} vs {b.axes_bounds[axis][0]!r})", case)
                 ok = False
         coords = np.concatenate([g.axes_coords[axis] for g in subs])
@@ -417,6 +418,10 @@ def run_shard(spec: dict) -> ShardResult:
         if gi == 0 and spec.get("known_finding_probe"):
             # fixed witness of known finding F18 (reported on every run)
             gspec = {"cls": "UnitGrid", "shape": [4, 6], "periodic": [True, True]}
+        if gi == 1 and spec["index"] in (1, 2):
+            # fixed grids with long axes starting at negative coordinates (every run sees them)
+            gspec = [{"cls": "CartesianGrid", "bounds": [[-3.0, 4.5]], "shape": [7], "periodic": [False]},
+                     {"cls": "CartesianGrid", "bounds": [[-2.0, 1.0], [-1.5, 0.0]], "shape": [5, 6], "periodic": [False, True]}][spec["index"] - 1]
         grid = gen.make_grid(gspec)
         cls = gspec["cls"]
         shape = gen.grid_shape(gspec)
